@@ -14,6 +14,7 @@
 -/
 import Lcapy.Model.MNA
 import Lcapy.Model.GQ
+import Lcapy.Model.Alloc
 import Lcapy.Generated.TwoPort
 namespace Lcapy.Netlist
 open Lcapy Lcapy.MNA
@@ -44,6 +45,14 @@ def parseLine (line : String) : Except String RawCpt :=
       if ty = "E" && rest[2]? = some "opamp" then
         if rest.length < 5 then .error s!"syntax:too-few-nodes:{name}"
         else .ok ⟨name, "Eopamp", (rest.take 2) ++ ((rest.drop 3).take 2), rest.drop 5⟩
+      -- `Ename Np Nm fdopamp Nip Nim Nocm Ad [Ac]` (grammar rule Efdopamp)
+      else if ty = "E" && rest[2]? = some "fdopamp" then
+        if rest.length < 7 then .error s!"syntax:too-few-nodes:{name}"
+        else .ok ⟨name, "Efdopamp", (rest.take 2) ++ ((rest.drop 3).take 3), rest.drop 6⟩
+      -- `Ename Np Nm inamp Nip Nim Nrp Nrm Ad Ac Rf` (grammar rule Einamp)
+      else if ty = "E" && rest[2]? = some "inamp" then
+        if rest.length < 10 then .error s!"syntax:too-few-nodes:{name}"
+        else .ok ⟨name, "Einamp", (rest.take 2) ++ ((rest.drop 3).take 4), rest.drop 7⟩
       -- `SPname pp|pm|ppp|pmm|ppm P P P [P]` (keyword before the nodes)
       else if ty = "SP" then
         match rest with
@@ -99,16 +108,15 @@ def needsBranch (ty : String) : Bool := ["L", "V", "E", "H", "TF", "GY", "AM", "
 def needsExtra (ty : String) : Bool := ty = "GY"
 def currentControlled (ty : String) : Bool := ["F", "H"].contains ty
 
-def branchList (cs : List RawCpt) : List String :=
-  cs.foldl (fun acc c =>
-    let acc := if (needsBranch c.ty || (c.ty = "TP" && ["A", "B", "G", "H"].contains (c.args.getD 0 "")))
-                  && !acc.contains c.name then acc ++ [c.name] else acc     -- may already be there as a controlling component
-    let acc := if needsExtra c.ty then acc ++ [c.name ++ "X"] else acc
-    if currentControlled c.ty then
-      match c.args with
-      | cn :: _ => if acc.contains cn then acc else acc ++ [cn]
-      | [] => acc
-    else acc) []
+def ownsBranch (k : RawCpt) : Bool :=
+  needsBranch k.ty || (k.ty = "TP" && ["A", "B", "G", "H"].contains (k.args.getD 0 ""))
+
+/-- what the allocation loop of `MNA.__init__` looks at in a line -/
+def toPLine (c : RawCpt) : PLine :=
+  ⟨c.name, ownsBranch c, needsExtra c.ty, if currentControlled c.ty then c.args.head? else none⟩
+
+/-- `unknown_branch_currents` (Model/Alloc.lean mirrors the loop; `alloc_complete`, `alloc_nodup`) -/
+def branchList (cs : List RawCpt) : List String := alloc (cs.map toPLine)
 
 /-! ### source values -/
 
@@ -202,6 +210,33 @@ def isVsource (cs : List RawCpt) (name : String) : Bool :=
   | some c => c.ty = "V"
   | none => false
 
+/-- a CCVS line `c` whose controlling component is an admittance-type element (R, C, Y): the nodes of that element,
+    its admittance and its short-circuit current in this analysis (`CCVS._stamp`: Y = ccpt.Y, eps → 0 for a capacitor
+    at dc; Isc only in an initial-value problem with an explicit initial voltage); `none` for other controls -/
+def ctrlInfo (an : Analysis) (cs : List RawCpt) (cls : List (List String)) (c : RawCpt) :
+    Except String (Option (Nat × Nat × GQ × GQ)) := do
+  match c.args.head? with
+  | none => pure none
+  | some cn =>
+    match cs.find? (fun k => k.name = cn) with
+    | none => pure none
+    | some k =>
+      if ownsBranch k || !(["R", "C", "Y"].contains k.ty) then pure none else do
+        let kn ← k.nodes.mapM (nodeIdx cls)
+        let v ← reqVal k.args.head?
+        let kind := an.kind
+        let (y, isc) : GQ × GQ ← match k.ty with
+          | "R" => pure ((1 : GQ) / v, (0 : GQ))
+          | "Y" => pure (v, (0 : GQ))
+          | _ => do
+            let v0 ← optVal an (k.args[1]?)
+            pure (capY kind an.s v, match kind, v0 with | .ivp, some v0 => v * v0 | _, _ => 0)
+        pure (some (kn.getD 0 0, kn.getD 1 0, y, isc))
+
+/-- is `c` the first CCVS line that names its controlling component? -/
+def firstCtrl (cs : List RawCpt) (c : RawCpt) : Bool :=
+  (cs.find? (fun q => q.ty = "H" && q.args.head? = c.args.head?)).map (·.name) = some c.name
+
 def elabOne (an : Analysis) (cs : List RawCpt) (cls : List (List String)) (brs : List String)
     (c : RawCpt) : Except String (List (Cpt GQ)) := do
   let ns ← c.nodes.mapM (nodeIdx cls)
@@ -249,21 +284,14 @@ def elabOne (an : Analysis) (cs : List RawCpt) (cls : List (List String)) (brs :
       match cs.find? (fun k => k.name = cn) with
       | none => throw s!"unknown-name:{cn}"
       | some k =>
-        if needsBranch k.ty || (k.ty = "TP" && ["A", "B", "G", "H"].contains (k.args.getD 0 "")) then
-          pure [.H (n 0) (n 1) m mc h]
+        if ownsBranch k then pure [.H (n 0) (n 1) m mc h]
         else if ["R", "C", "Y"].contains k.ty then do
-          let first := (cs.find? (fun q => q.ty = "H" && q.args.head? = some cn)).map (·.name) = some c.name
-          if !first then pure [.H (n 0) (n 1) m mc h] else
-          let kn ← k.nodes.mapM (nodeIdx cls)
-          let v ← reqVal k.args.head?
-          let kind := an.kind
-          let (y, isc) : GQ × GQ ← match k.ty with
-            | "R" => pure ((1 : GQ) / v, (0 : GQ))
-            | "Y" => pure (v, (0 : GQ))
-            | _ => do
-              let v0 ← optVal an (k.args[1]?)
-              pure (capY kind an.s v, match kind, v0 with | .ivp, some v0 => v * v0 | _, _ => 0)
-          pure [.HY (n 0) (n 1) m (kn.getD 0 0) (kn.getD 1 0) mc y isc h]
+          -- the hand model gives the control row to the FIRST CCVS naming the component; the rows the later ones
+          -- stamp again are kept in `Elab.extra` (same solutions, `dup_row_same_solutions`)
+          if !(firstCtrl cs c) then pure [.H (n 0) (n 1) m mc h] else
+          match ← ctrlInfo an cs cls c with
+          | some (n3, n4, y, isc) => pure [.HY (n 0) (n 1) m n3 n4 mc y isc h]
+          | none => throw "unsupported:control-component"
         else throw "unsupported:control-component"
   | "TF" => do
       let a ← reqVal c.args.head?
@@ -328,6 +356,7 @@ structure Elab where
   cls : List (List String)
   brs : List String
   cpts : List (String × Cpt GQ)      -- (component name, evaluated component)
+  extra : Stamp GQ := {}             -- rows that the code stamps AGAIN (control rows of further CCVS naming the same R/C/Y)
 
 /-- `Eopamp._expand`: an opamp becomes a VCVS `E__<name>` (and, when the output resistance Ro is
     present and non-zero, a resistor `R__<name>` from a fresh internal node to the output node) -/
@@ -342,17 +371,76 @@ def expandRaw (c : RawCpt) : List RawCpt :=
     else
       let o := "_nodeanon_" ++ c.name
       [⟨"E__" ++ c.name, "E", [o, n 1, n 2, n 3], [ad, ac]⟩, ⟨"R__" ++ c.name, "R", [o, n 0], [ro]⟩]
+  else if c.ty = "Efdopamp" then
+    -- `Efdopamp._expand`: two opamps of gain Ad/2 around the output common-mode node (nodes: Np Nm Nip Nim Nocm)
+    let n (i : Nat) : String := c.nodes.getD i "?"
+    let ad := c.args.getD 0 c.name
+    let ac := c.args.getD 1 "0"
+    let half := match parseVal ad with | some r => ratToStr (r / 2) | none => ad
+    [⟨"Ep__" ++ c.name, "Eopamp", [n 0, n 4, n 2, n 3], [half, ac, "0"]⟩,
+     ⟨"Em__" ++ c.name, "Eopamp", [n 4, n 1, n 2, n 3], [half, ac, "0"]⟩]
+  else if c.ty = "Einamp" then
+    -- `Einamp._expand` (nodes: Np Nm Nip Nim Nrp Nrm; two fresh internal nodes)
+    let n (i : Nat) : String := c.nodes.getD i "?"
+    let ad := c.args.getD 0 c.name
+    let ac := c.args.getD 1 "0"
+    let rf := c.args.getD 2 "0"
+    let n7 := "_nodeanon_" ++ c.name ++ "_7"
+    let n8 := "_nodeanon_" ++ c.name ++ "_8"
+    [⟨"Ep__" ++ c.name, "Eopamp", [n7, "0", n 2, n 4], [ad, "0", "0"]⟩,
+     ⟨"Em__" ++ c.name, "Eopamp", [n8, "0", n 3, n 5], [ad, "0", "0"]⟩,
+     ⟨"Ed__" ++ c.name, "Eopamp", [n 0, n 1, n7, n8], ["1", ac, "0"]⟩,
+     ⟨"Rfp__" ++ c.name, "R", [n 4, n7], [rf]⟩,
+     ⟨"Rfm__" ++ c.name, "R", [n 5, n8], [rf]⟩]
   else [c]
 
-def elaborate (an : Analysis) (lines : List String) : Except String Elab := do
+/-- one application of `Netlist.expand()` (what this version of Lcapy does; an `fdopamp`/`inamp` form then still
+    contains `opamp` forms and cannot be analysed) -/
+def expandOnce (raw : List RawCpt) : List RawCpt := raw.flatMap expandRaw
+
+/-- is the controlling component of the CCVS line `c` an admittance-type element without a branch of its own? -/
+def ctrlIsAdm (cs : List RawCpt) (c : RawCpt) : Bool :=
+  match cs.find? (fun k => some k.name = c.args.head?) with
+  | some k => !ownsBranch k && ["R", "C", "Y"].contains k.ty
+  | none => false
+
+/-- names of the unknown branch currents OWNED by the component elaborated from line `c` (the row of the system in
+    which its defining relation is written), in the order of `MNA.owned` -/
+def ownedNames (cs : List RawCpt) (c : RawCpt) : List String :=
+  (if needsExtra c.ty then [c.name ++ "X"] else []) ++ (if ownsBranch c then [c.name] else []) ++
+  (if c.ty = "H" && firstCtrl cs c && ctrlIsAdm cs c then [c.args.headD ""] else [])
+
+/-- acceptance test of the front-end for the allocation of branch unknowns: the owned names are distinct, every one
+    of them was allocated by the `MNA.__init__` loop, and each elaborated component owns exactly the indices of its
+    names (`alloc_wf` derives the hypothesis `WF` of `mna_iff_laws` from it) -/
+def allocOk (raw : List RawCpt) (brs : List String) (cpts : List (String × Cpt GQ)) : Bool :=
+  let names := raw.flatMap (ownedNames raw)
+  decide names.Nodup && names.all (fun a => brs.contains a) &&
+    (cpts.flatMap (fun p => owned p.2) == names.map (fun a => brs.idxOf a))
+
+def elaborateCore (an : Analysis) (lines : List String) : Except String Elab := do
   let raw0 ← lines.mapM parseLine
-  let raw := raw0.flatMap expandRaw
+  -- expanded until only plain components remain (two rounds suffice: fdopamp/inamp → opamp → E, R)
+  let raw := expandOnce (expandOnce raw0)
   let cls ← nodeClasses raw
   let brs := branchList raw
   let cpts ← raw.foldlM (fun acc c => do
     let l ← elabOne an raw cls brs c
     pure (acc ++ l.map (fun x => (c.name, x)))) []
-  pure ⟨raw, cls, brs, cpts⟩
+  let extra ← raw.foldlM (fun (acc : Stamp GQ) c => do
+    if c.ty = "H" && !(firstCtrl raw c) then
+      match ← ctrlInfo an raw cls c with
+      | some (n3, n4, y, isc) => do
+          let mc ← lookupIdx brs (c.args.headD "")
+          pure (acc.append (ctrlRow n3 n4 mc y isc))
+      | none => pure acc
+    else pure acc) {}
+  pure { raw := raw, cls := cls, brs := brs, cpts := cpts, extra := extra }
+
+def elaborate (an : Analysis) (lines : List String) : Except String Elab :=
+  match elaborateCore an lines with
+  | .error m => .error m
+  | .ok e => if allocOk e.raw e.brs e.cpts then .ok e else .error "ill-formed:branch-names"
 
 /-! ### an untrusted Gauss–Jordan solver (its output is always checked with `residual`) -/
 
